@@ -3,6 +3,7 @@ import AITB.Model.Guard
 import AITB.Model.ModelState
 import AITB.Model.CoopDyn
 import AITB.Model.AmdpHull
+import AITB.Model.Loader
 open AITB AITB.Guard AITB.MS AITB.Sampling
 
 namespace DrvC06
@@ -368,6 +369,33 @@ def amdpLine : P String := do
       xclose (if sparse then amdpRSparse evs S1 s a else amdpRDense guarded evs S1 s a) (get2 R s a)))) s!"{comp} rewards"
   return v.render
 
+/-- `load kb pre | cut d T R | err failbit post` : `operator>>(istream&, Model&)` / `(…, SparseModel&)` -/
+def loadLine : P String := do
+  let kb ← rep; let pre ← state; P.bar
+  let cut ← P.nat; let d ← P.x; let t ← tab3 pre.A pre.S pre.S; let r ← tab2 pre.S pre.A; P.bar
+  let err ← P.tok; let failbit ← P.bool; let post ← state; P.eof
+  let comp := baseCls kb ++ "::operator>>"
+  if illTab (kb == .sparse) t then return "skip ill_conditioned" else
+  -- the reader stops at the first token it cannot read: a cut, or a non-finite number (printed as nan / inf)
+  let finT := t.all (fun m => m.all (fun row => row.all isFin))
+  let finR := r.all (fun row => row.all isFin)
+  let parsed : Parsed :=
+    if cut == 3 || !(isFin d) then .nothing
+    else if cut == 1 || !finT then .disc d
+    else if cut == 2 || !finR then .discT d t
+    else .all d t r
+  let (ms, mo) := load kb pre parsed
+  let iout : LoadOut := if err != "none" then .threw else if failbit then .failbit else .loaded
+  let v : Verdict := { tag := "load_" ++ (match iout with | .loaded => "loaded" | .failbit => "failbit" | .threw => "threw") }
+  let v := v.failIf (err != "none" && err != "invalid_argument") s!"{comp} wrong_exception_class {err}"
+  let v := v.failIf (iout != .loaded && !(post == pre)) s!"{comp} failed_load_changed_object"
+  let v := v.failIf (iout == .loaded && !(inUnitB post.disc)) s!"{comp} {discKind post.disc} {post.disc}"
+  let v := v.failIf (iout == .loaded && !(rowsDistB post.T)) s!"{comp} stored_row_not_distribution"
+  let v := v.failIf (iout == .loaded && !(post.T == t && post.R == r && xeq post.disc d)) s!"{comp} loaded_table_not_supplied"
+  let v := v.diffIf (mo != iout) s!"{comp} outcome model={repr mo} impl={repr iout}"
+  let v := v.diffIf (mo == iout && !(stAgree xeq ms post)) s!"{comp} state_after_load"
+  return v.render
+
 /-- `amdp0 kind via | err bucketsAfter S1` : AMDP asked for zero entropy buckets -/
 def amdp0Line : P String := do
   let kind ← P.tok; let via ← P.tok; P.bar
@@ -525,6 +553,7 @@ def handle (toks : List String) : String :=
     | "op" :: rest => P.run opLine rest
     | "ctor" :: rest => P.run ctorLine rest
     | "acc" :: rest => P.run accLine rest
+    | "load" :: rest => P.run loadLine rest
     | "isprob" :: rest => P.run isprobLine rest
     | "disc" :: rest => P.run discLine rest
     | "amdp" :: rest => P.run amdpLine rest
